@@ -23,6 +23,10 @@ fn main() {
         vcheck::props::c14::print_configs(args[2] == "thorough");
         return;
     }
+    if args[1] == "c15-configs" {
+        vcheck::props::c15::print_configs(args[2] == "thorough");
+        return;
+    }
     if args[1] == "child" {
         match args[2].as_str() {
             "c09" => vcheck::props::c09::child_main(),
